@@ -185,6 +185,14 @@ Definition ser_value (name : str) (v : IValue) : VInfoP :=
 Definition ser_quant (v : IValue) : list QuantP :=
   match v_quant v with [] => [] | q => [mkQuantP (Some (v_name v)) (ksort q)] end.
 
+(* a value listed several times among the graph outputs gets its annotation once (b6bf1ea) *)
+Fixpoint dedup_quant (seen : list str) (l : list QuantP) : list QuantP :=
+  match l with
+  | [] => []
+  | q :: r => let k := dflt [] (qa_name q) in
+              if in_str k seen then dedup_quant seen r else q :: dedup_quant (k :: seen) r
+  end.
+
 (* ================================================================== attributes *)
 Definition AT_UNDEFINED := AttributeType_UNDEFINED.
 Definition empty_tensor : TensorP := mkTensorP [] None None None None None [] [] [] [].
@@ -466,7 +474,7 @@ Section WithGraph.
                  (map fst outs)
                  (concat (map (fun x => snd (fst x)) inits) ++ concat (map snd node_infos))
                  (concat (map snd ins) ++ concat (map (fun x => fst (fst x)) inits)
-                    ++ concat (map fst node_infos) ++ concat (map snd outs))
+                    ++ concat (map fst node_infos) ++ dedup_quant [] (concat (map snd outs)))
                  (ksort (ig_meta g))).
 End WithGraph.
 
